@@ -24,12 +24,23 @@ META = {
                   ('chord_symbols_lib', 'chord_symbol_pitches'),
                   ('chord_symbols_lib', 'chord_symbol_bass'),
                   ('chord_symbols_lib', 'chord_symbol_root'),
-                  ('chord_symbols_lib', 'chord_symbol_quality')],
-    'assumptions': ['K distinct pitch classes per job, octaves 0..9'],
+                  ('chord_symbols_lib', 'chord_symbol_quality'),
+                  ('chord_symbols_lib', '_parse_chord_symbol'),
+                  ('chord_symbols_lib', '_parse_modifications')],
+    'assumptions': ['K distinct pitch classes per job, octaves 0..9',
+                    'h_symbol: figures assembled as root spelling + kind from '
+                    'the module table + <=M parenthesised (or bare) degree '
+                    'modifications + optional /bass; every choice domain is '
+                    'closed by the solver (degenerate enumeration, as above)'],
     'bounds': {
-        'quick': 'all sets of 1..3 pitch classes, every bass / octave layout',
+        'quick': 'all sets of 1..3 pitch classes, every bass / octave layout; '
+                 'symbols: all 68 kinds x <=1 modification (6 types x degrees '
+                 '1..13) x roots C/F/B x {no bass, /E, /Eb}; 4 kinds x all 35 '
+                 'root and 35 bass spellings',
         'thorough': 'all sets of 1..6 pitch classes (2509 sets), every bass; '
-                    'sets of 7..12 not required to finish',
+                    'sets of 7..12 not required to finish; symbols with 2 '
+                    'modifications (10 degrees) and bare modifications on all '
+                    '35 root spellings',
     },
     'outside': ['sets larger than completed bounds (see jobs_not_completed)'],
 }
@@ -80,14 +91,89 @@ def h_name(c):
             'a triad quality implies the triad is among the pitches')
 
 
-HARNESSES = {'h_name': h_name}
+_STEP_PC = {'C': 0, 'D': 2, 'E': 4, 'F': 5, 'G': 7, 'A': 9, 'B': 11}
+
+
+def _spell(c, name, steps, alters):
+  step = c.choice(name + '_step', steps)
+  alter = c.choice(name + '_alter', alters)
+  return (step + ('#' * alter if alter > 0 else 'b' * -alter),
+          (_STEP_PC[step] + alter) % 12)
+
+
+def h_symbol(c):
+  """Any parseable symbol: root / bass / quality / pitch classes mutually
+  consistent.  The figure is assembled from choices (root spelling, kind from
+  the module's own table, up to M scale-degree modifications, optional bass);
+  the solver closes each choice domain."""
+  cs = c.mod('chord_symbols_lib')
+  kinds = sorted(cs._CHORD_KINDS_BY_ABBREV)
+  lo, hi = c.params['kinds']
+  mods = sorted(cs._DEGREE_MODIFICATIONS)
+  root_str, root_pc = _spell(c, 'root', c.params['root_steps'],
+                             c.params['root_alters'])
+  kind = c.choice('kind', kinds[lo:hi])
+  fig = root_str + kind
+  M = c.params['M']
+  paren = c.params.get('paren', True)
+  for j in range(M):
+    present = c.choice('mod%d_present' % j, [False, True])
+    if not present:
+      break
+    m = c.choice('mod%d_type' % j, c.params.get('mod_types') or mods)
+    d = c.choice('mod%d_degree' % j, c.params['degrees'])
+    fig += ('(%s%d)' if paren else '%s%d') % (m, d)
+  bass_pc = root_pc
+  if c.choice('has_bass', [False, True]):
+    bass_str, bass_pc = _spell(c, 'bass', c.params['bass_steps'],
+                               c.params['bass_alters'])
+    fig += '/' + bass_str
+  out = {}
+  for fn in ('chord_symbol_root', 'chord_symbol_bass', 'chord_symbol_pitches',
+             'chord_symbol_quality'):
+    res, err = c.raises(getattr(cs, fn), fig)
+    if err is not None:
+      c.check(isinstance(err, cs.ChordSymbolError),
+              'an uninterpretable symbol raises ChordSymbolError')
+      c.cover('symbol rejected')
+      out[fn] = None
+    else:
+      out[fn] = res
+  root, bass = out['chord_symbol_root'], out['chord_symbol_bass']
+  pitches, q = out['chord_symbol_pitches'], out['chord_symbol_quality']
+  if root is not None:
+    c.check(root == root_pc, 'root pitch class is the spelled root (0..11)')
+  if bass is not None:
+    c.check(bass == bass_pc,
+            'bass pitch class is the spelled bass, or the root without one')
+  c.check((pitches is None) == (q is None),
+          'pitches and quality are defined for the same symbols')
+  if pitches is None or root is None:
+    return
+  c.cover('symbol accepted')
+  c.check(all(isinstance(p, int) and 0 <= p <= 11 for p in pitches),
+          'pitch classes in 0..11')
+  names = {cs.CHORD_QUALITY_MAJOR: 'major', cs.CHORD_QUALITY_MINOR: 'minor',
+           cs.CHORD_QUALITY_AUGMENTED: 'augmented',
+           cs.CHORD_QUALITY_DIMINISHED: 'diminished'}
+  if q in names:
+    tri = set((root + d) % 12 for d in _TRIADS[names[q]])
+    c.check(tri <= set(pitches),
+            'a triad quality implies the triad on the root is among the '
+            'pitches')
+    c.cover('triad quality with a modification', '(' in fig)
+  else:
+    c.check(q == cs.CHORD_QUALITY_OTHER, 'quality is one of the five values')
+
+
+HARNESSES = {'h_name': h_name, 'h_symbol': h_symbol}
 
 
 def jobs(tier):
   J = []
 
-  def add(budget=600, required=True, **params):
-    J.append({'harness': 'h_name', 'params': params, 'budget_s': budget,
+  def add(budget=600, required=True, harness='h_name', **params):
+    J.append({'harness': harness, 'params': params, 'budget_s': budget,
               'required': required})
 
   deep = tier == 'thorough'
@@ -95,7 +181,27 @@ def jobs(tier):
   add(K=2)
   for first in range(0, 10):
     add(K=3, first=first)
+  # parseable symbols: every kind of the table x <=1 modification (every type,
+  # degrees 1..13) x 3 root spellings x {no bass, 2 basses}
+  for lo in range(0, 68, 9):
+    add(harness='h_symbol', kinds=[lo, lo + 9], M=1,
+        root_steps=['C', 'F', 'B'], root_alters=[0], degrees=list(range(1, 14)),
+        bass_steps=['E'], bass_alters=[0, -1], budget=900)
+  add(harness='h_symbol', kinds=[0, 4], M=0, root_steps=list('CDEFGAB'),
+      root_alters=[-2, -1, 0, 1, 2], degrees=[], bass_steps=list('CDEFGAB'),
+      bass_alters=[-2, -1, 0, 1, 2])
   if deep:
+    # two modifications, all 35 root spellings
+    for lo in range(0, 68, 2):
+      add(harness='h_symbol', kinds=[lo, lo + 2], M=2,
+          root_steps=['C', 'A'], root_alters=[0, 1],
+          degrees=[1, 2, 3, 4, 5, 6, 7, 9, 11, 13], bass_steps=['G'],
+          bass_alters=[0], budget=3000)
+    for lo in range(0, 68, 4):
+      add(harness='h_symbol', kinds=[lo, lo + 4], M=1, paren=False,
+          root_steps=list('CDEFGAB'), root_alters=[-2, -1, 0, 1, 2],
+          degrees=[1, 3, 5, 7, 9], bass_steps=['D'], bass_alters=[1],
+          budget=3000)
     for k in (4, 5, 6):
       for first in range(0, 13 - k):
         add(K=k, first=first, budget=3000)
